@@ -50,17 +50,31 @@ func mix(x uint64) uint64 {
 	return x
 }
 
+// installed tracks whether a handler set is in place; PointHook is an additional schedule-point
+// callback (used by the driver to hold the flusher) consulted by whatever handler set is installed.
+var installed atomic.Bool
+
+// PointHook, when set, is called at every schedule point before the installed handler acts.
+var PointHook atomic.Pointer[func(name string)]
+
+// Installed reports whether Install was called without a later Uninstall.
+func Installed() bool { return installed.Load() }
+
 // Install installs the handlers (replacing any previous set).
 func Install(cfg Config) *Sched {
+	installed.Store(true)
 	s := &Sched{cfg: cfg, points: map[string]int64{}, delays: map[string]int64{}, evs: map[string]int64{}, inflight: map[uint64]struct{}{}}
 	verifhook.Set(&verifhook.Handlers{Point: s.point, Ev: s.ev, EvB: s.evb, FS: s.fs})
 	return s
 }
 
 // Uninstall removes all handlers.
-func Uninstall() { verifhook.Set(nil) }
+func Uninstall() { installed.Store(false); verifhook.Set(nil) }
 
 func (s *Sched) point(name string) {
+	if h := PointHook.Load(); h != nil {
+		(*h)(name)
+	}
 	if s.cfg.OnPoint != nil {
 		s.cfg.OnPoint(name)
 	}
